@@ -227,7 +227,7 @@ CHECKS['C11'] = dict(
          _mode_jobs('MODE_DYNDEP_BAD', [7, 15], suffix='_bad', reach=('truncated', 'rejected', 'accepted'), bounds='dyndep text truncated at every byte or one of 7 (8 with two dyndep files) ill-formed variants; dyndep file produced during the build or already present; -j in {1,2}') +
          _hist_jobs('CHECK_C11', 2, 2, [15]))
 
-SCENARIOS += ['cycle_explicit', 'cycle_order_only_implicit', 'cycle_multi_output', 'validation_on_requester', 'cycle_by_depfile', 'cycle_by_deps_log', 'self_cycle', 'cycle_by_dyndep_running', 'independent_depfile_edges', 'restat_with_deps', 'restat_order_only_newer', 'rspfile_empty_content']
+SCENARIOS += ['cycle_explicit', 'cycle_order_only_implicit', 'cycle_multi_output', 'validation_on_requester', 'cycle_by_depfile', 'cycle_by_deps_log', 'self_cycle', 'cycle_by_dyndep_running', 'independent_depfile_edges', 'restat_with_deps', 'restat_order_only_newer', 'rspfile_empty_content', 'depfile_noncanonical_path']
 CHECKS['C17'] = dict(
     title='dependency cycles are always diagnosed, and only real ones',
     level_text='Symbolic invocations over the whole real pipeline on graphs with cycles of length 1-3 through explicit, implicit and order-only inputs and through multi-output statements, inside and outside the requested closure, closed by the manifest, by a depfile, by the deps log or (C11 job dyndep_bad) by a dyndep file mid-build, plus acyclic graphs in which validations depend on their requester or on each other. A depth-first search over the harness reference graph decides whether the needed part is cyclic; the solver is asked for a target subset / -j / schedule for which ninja does not fail with a "dependency cycle" error spelling out a closed chain of real input relations, runs a command of the cycle, rejects an acyclic graph, or ends with "stuck". Unbounded recursion and hangs are caught by the engine call-depth and step budgets.',
@@ -273,7 +273,12 @@ CHECKS['C20'] = dict(
 CHECKS['C01']['jobs'] += _hist_jobs('CHECK_C01', 2, 3, [25, 26])
 CHECKS['C02']['jobs'] += _hist_jobs('CHECK_C02', 2, 3, [25], reach=('built', 'converged-checked'))
 CHECKS['C03']['jobs'] += _hist_jobs('CHECK_C03', 2, 3, [25, 26], reach=('built', 'minimality-checked'))
-CHECKS['C10']['jobs'] += _hist_jobs('CHECK_C10', 2, 3, [25], reach=('built', 'incremental-build', 'header-vanished'))
+CHECKS['C10']['jobs'] += _hist_jobs('CHECK_C10', 2, 3, [25], reach=('built', 'incremental-build', 'header-vanished')) + _hist_jobs('CHECK_C10', 2, 3, [28])
 CHECKS['C04']['jobs'] += _mode_jobs('MODE_SCHED', [2, 13], extra=['WITH_FAILURES'], suffix='_sched_fail', reach=('built',), bounds='one invocation from the empty tree with failing commands, -k in {1,2}, -j in {1,2,3}')
 CHECKS['C16']['jobs'] += _mode_jobs('MODE_SCHED', [27, 2], suffix='_rspfile', reach=('built',), bounds='response file content checked at command start (empty and non-empty rspfile_content), -j in {1,2,3}')
 CHECKS['C16']['level_text'] += ' Two pipeline jobs assert at CommandRunner::StartCommand that the response file exists and holds exactly the evaluated rspfile_content (also when that is empty).'
+
+CHECKS['C14']['jobs'].append(dict(name='deep', harness='c14_deep.cc', units=['util'] + ['string_piece_util', 'edit_distance'], stubs=False, reach=['deep', 'shallow'], limits=dict(max_steps=50000000, time=1200),
+    quick=dict(defines=['VERIF_DEPTHS=8'], bounds='("d/" x M) for M in {0,1,127,128,254,255,256,257}, relative or absolute, followed by 1..3 components from {.., ., f, empty}'),
+    thorough=dict(defines=['VERIF_DEPTHS=11'], bounds='the same with M up to 513', limits=dict(time=3000))))
+CHECKS['C14']['level_note'] += ' A second job covers paths of up to 513 components (concrete structure chosen from menus) against the same reference.'
